@@ -398,6 +398,7 @@ fn check_stream(stream: &[Y], r: &gy::RenderedYaml, u: &mut Src, st: &mut Stats,
             st.class_if(matches!(sp.style, YStyle::Single | YStyle::Double), "offset-in-quoted-token");
             st.class_if(role == "alias" && sp.value.is_container(), "offset-in-alias-to-collection");
             st.class_if(depth == 0, "offset-in-root-scalar");
+            st.class_if(depth >= 12, "offset-depth>=12");
             if let Err(f) = check_offset(&cx, &ex, o, st) {
                 if !OPEN_SHAPES.contains(&f.sig.as_str()) {
                     return Err(f);
@@ -421,7 +422,9 @@ fn opts_for(cx: &Ctx) -> YOpts {
     // the loader's open findings are C14's business: excluded by construction exactly as
     // C14's main search excludes them
     o.avoid = c14::opts_for(cx).avoid;
-    o.max_depth = 8;
+    // depth of the occasional single-child spine (c14::gen_model keeps ordinary trees at
+    // depth <= 8); materialisation is documented to panic past 256 levels
+    o.max_depth = if cx.tier == Tier::Quick { 30 } else { 80 };
     o
 }
 
@@ -691,7 +694,7 @@ pub fn run(cx: &mut Ctx) {
         "offset-nontrivial", "offset-in-key", "offset-in-scalar", "offset-in-alias", "offset-in-block-scalar", "offset-first-byte", "offset-last-byte",
         "offset-interior", "offset-keyword-on-path", "offset-non-ascii-key-on-path", "offset-bracket-key-on-path", "offset-in-document>=1",
         "offset-in-flow-context", "offset-in-multiline-token", "offset-in-anchored-token", "offset-in-quoted-token", "offset-in-alias-to-collection",
-        "offset-in-root-scalar", "break-CRLF", "break-CR", "multi-document", "block_maps", "block_seqs", "flow_maps", "flow_seqs", "literal", "folded",
+        "offset-in-root-scalar", "offset-depth>=12", "break-CRLF", "break-CR", "multi-document", "block_maps", "block_seqs", "flow_maps", "flow_seqs", "literal", "folded",
         "keys_single", "keys_double", "compact_seq_entries", "seq_at_parent_indent",
     ] {
         cx.require_class("locate-eval", cl, 20);
